@@ -837,6 +837,11 @@ func vfC29Fills(rec *evid.Rec) {
 	for _, m := range []string{"CREATE", "MKDIR", "SYMLINK", "RENAME-onto"} {
 		scens = append(scens, scen{"LOOKUP-absent", m})
 	}
+	for _, m := range []string{"WRITE", "SETATTR-size", "RENAME-over", "REMOVE"} {
+		for _, rd := range []string{"GETATTR-existing", "ACCESS-existing", "READ-existing"} {
+			scens = append(scens, scen{rd, m})
+		}
+	}
 	for _, sc := range scens {
 		fs := refs.New()
 		fs.PlantDir("/d", 0777, 0, 0)
@@ -860,7 +865,8 @@ func vfC29Fills(rec *evid.Rec) {
 		}
 		dh, eh := look(root, "d"), look(root, "e")
 		oldh := uint64(0)
-		if sc.mutator == "WRITE" || sc.mutator == "SETATTR-size" {
+		handleReader := sc.reader == "GETATTR-existing" || sc.reader == "ACCESS-existing" || sc.reader == "READ-existing"
+		if sc.mutator == "WRITE" || sc.mutator == "SETATTR-size" || handleReader {
 			oldh = look(dh, "old")
 			srv.nfs.attrCache.Invalidate("/d/old") // the reader below must fill the cache itself
 		}
@@ -871,6 +877,8 @@ func vfC29Fills(rec *evid.Rec) {
 			parkName, parkPath, target = "Lstat", "/d/old", "old"
 		case "LOOKUP-absent":
 			parkName, parkPath, target = "Lstat", "/d/new", "new"
+		case "GETATTR-existing", "ACCESS-existing", "READ-existing":
+			parkName, parkPath, target = "Lstat", "/d/old", "old"
 		}
 		parked, open := make(chan struct{}), make(chan struct{})
 		var once sync.Once
@@ -889,9 +897,16 @@ func vfC29Fills(rec *evid.Rec) {
 		go func() {
 			defer close(readerDone)
 			cl := srv.client()
-			if sc.reader == "READDIR" {
+			switch sc.reader {
+			case "READDIR":
 				cl.readdir(dh, 0, 65536)
-			} else {
+			case "GETATTR-existing":
+				cl.getattr(oldh)
+			case "ACCESS-existing":
+				cl.access(oldh, 0x3f)
+			case "READ-existing":
+				cl.read(oldh, 0, 4)
+			default:
 				cl.lookup(dh, target)
 			}
 		}()
